@@ -255,7 +255,7 @@ PROPS["C12"] = {
 }
 
 PROPS["C13"] = {
-    "claim": "Writer: ONE call of a symbolically chosen entry point (write_str / writeln_str / core::fmt::Write::write_str / ufmt::uWrite::write_str) with symbolic well-formed text <= 3 bytes over {x, e-acute, CR, LF} from an ARBITRARY writer state under its invariant: the sink receives exactly the text with each LF replaced by CR LF (+ CR LF for writeln_str), and a line break is owed iff the output so far is non-empty and does not end with LF; inductive, so any number of calls; plus a two-call run from new()",
+    "claim": "Writer: ONE call of a symbolically chosen entry point (write_str / writeln_str / core::fmt::Write::write_str / ufmt::uWrite::write_str) with symbolic well-formed text <= 3 bytes over {x, e-acute, CR, LF} from an ARBITRARY writer state under its invariant: the sink receives exactly the text with each LF replaced by CR LF (+ CR LF for writeln_str), and a line break is owed iff the output so far is non-empty and does not end with LF; inductive, so any number of calls",
     "assumptions": [
         "writer invariant: the remembered last two bytes never contain LF (base case c13_writer_base)",
         "formatted writes are represented by the two trait entry points that write!/uwrite! call; the formatting engines themselves are core/ufmt code",
@@ -267,7 +267,6 @@ PROPS["C13"] = {
         H("c13_output::c13_step_fmt_write", bounds="any writer state, core::fmt::Write::write_str, text <= 3 bytes", timeout=900, mem=6),
         H("c13_output::c13_step_uwrite", bounds="any writer state, ufmt::uWrite::write_str, text <= 3 bytes", timeout=900, mem=6),
         H("c13_output::c13_writer_base", bounds="Writer::new()"),
-        H("c13_output::c13_writer_two_calls", bounds="2 calls of write_str/writeln_str x text of exactly 1 byte over {x, CR, LF} from new()", timeout=900, mem=6),
         H("c13_output::c13_writer_twin", kind="twin"),
     ],
 }
@@ -330,8 +329,12 @@ PROPS["C06"] = {
         "terminal width is larger than prompt + N + 2 cells (no wrapping)",
     ],
     "harnesses": cli_keys("cli_term", SHOW_KEYS, tags=["C06"], timeout=1200, mem=5) + [
-    ] + [H("cli_term::show_enter_v%d" % v, tags=["C06", "C13"], cfg=["vp_h0"], bounds="Enter from ANY editor state with a line of exactly %d bytes (N=3, history buffer of size 0), handler writes nothing / <=2 bytes over {x, LF} / changes the prompt" % v, timeout=2400, mem=10) for v in range(0, 4)] + [
-    ] + [H("cli_term::show_cli_write_v%d" % v, tags=["C06", "C13"], cfg=["vp_h0"], bounds="Cli::write(write_str of <= 2 bytes over {x, LF}) from ANY editor state with a line of exactly %d bytes (N=3)" % v, timeout=2400, mem=10) for v in range(0, 4)] + [
+    ] + [H("cli_term::show_enter_" + c, tags=["C06", "C13"], cfg=["vp_h0"], tier=("both" if c in ("v0_silent", "v2_silent", "v2_x", "v2_xlf", "v2_prompt", "v1_x", "v3_xlf") else "thorough"),
+           bounds="Enter from ANY editor state (N=3, history buffer of size 0), line length / handler behaviour `%s` (silent, writes x / x+LF / LF / x+LF+x, changes the prompt): the sink receives exactly the expected transcript (part 2: term_enter_lemma)" % c, timeout=2400, mem=8)
+         for c in ("v0_silent", "v1_silent", "v1_x", "v1_prompt", "v2_silent", "v2_x", "v2_xlf", "v2_lf", "v2_xlfx", "v2_prompt", "v3_silent", "v3_x", "v3_xlf", "v3_prompt")] + [
+    ] + [H("cli_term::show_cli_write_v%d_p%d" % (v, pr), tags=["C06", "C13"], cfg=["vp_h0"], bounds="Cli::write(write_str of one of \"\", x, x+LF, LF, x+LF+x) from ANY editor state with a line of exactly %d bytes (N=3), prompt %s: the sink receives exactly the expected transcript (part 2: term_redraw_lemma)" % (v, ["empty", "", "e-acute> "][pr]), tier=("both" if (v, pr) in ((1, 0), (2, 2), (3, 2)) else "thorough"), timeout=2400, mem=8) for v in range(0, 4) for pr in (0, 2)] + [
+        H("cli_term::term_enter_lemma", tags=["C06", "C13"], bounds="harness-side lemma: the byte transcript of Enter (any of 5 output texts, any prompt) fed to the terminal emulator from ANY Show state leaves the submitted line on its row, the output below it and a fresh row with the prompt", timeout=1800, mem=8),
+        H("cli_term::term_redraw_lemma", tags=["C06", "C13"], bounds="harness-side lemma: the byte transcript of Cli::write, for ANY CliInv line/cursor/prompt and any of the 5 output texts, fed to the terminal emulator from ANY terminal state, displays prompt + line with the cursor at the editor's cursor", timeout=1800, mem=8),
         H("cli_term::show_set_prompt", tags=["C06"], bounds="Cli::set_prompt(any of three prompts) from ANY CliInv state", timeout=1200, mem=5),
         H("cli_term::show_twin", kind="twin"),
     ],
